@@ -566,6 +566,7 @@ GROUPS = {
         ("R3", r"\b(?:std::)?f64::consts::PI\b", "F::pi()"),
         ("R3", r"\b(?:std::)?f64::MIN\b(?!_)", "F::min_value()"),
         ("R3", r"\b(?:std::)?f64::EPSILON\b", "F::epsilon()"),
+        ("R3", r"\bf64::from\(\s*(?:std::)?f32::EPSILON\s*\)", "F::epsilon32()"),
         ("R3", r"\bf64::(\w+)\s*\(", r"F::\1("),
         ("R1", r"\bPI\b", "F::pi()"),
         ("R2", r"\(([^()]*(?:\([^()]*\)[^()]*)*)\)\.(ceil|floor)\(\)\s+as\s+i64", r"F::\2_i64(\1)"),
